@@ -57,6 +57,7 @@ class C19(Engine):
     prop = "C19"
     title = "naken_util memory commands address the same bytes as loader and simulator"
     quick_budget = 45
+    quick_runs = 25000
     thorough_budget = 600
     rule = ("run i = one forked naken_util lifetime (real main(), scripted console) on a CPU with 1/2/4/8 bytes per address and either "
             "byte order: optional load of a seeded bin/hex image (with -address/-set_pc), then 8-40 commands write/write16/write32 "
